@@ -761,6 +761,7 @@ def normalize_function(fn, resolver=None, list_attrs=frozenset(), consts=None, c
         new.body = _drop_defs(new.body, {id(single[k]) for k in table})
         changed = True
     # N17, N15 / N16
+    changed |= _fold_extends(new, st.list_names)
     changed |= _field_readback(new)
     changed |= _paired_temps(new)
     changed |= _sink_consumer(new)
@@ -981,6 +982,39 @@ def _pure_value(e):
     if isinstance(e, ast.UnaryOp) and isinstance(e.op, ast.USub):
         e = e.operand
     return isinstance(e, ast.Constant) or _is_path(e)
+
+
+def _fold_extends(fn, list_names):
+    """N26  x = list(A); x.extend(B)   ->   x = list(A) + list(B)      (x a local python list, B a plain path)"""
+    changed = [False]
+
+    def block(stmts):
+        i = 0
+        while i + 1 < len(stmts):
+            s1, s2 = stmts[i], stmts[i + 1]
+            if isinstance(s1, ast.Assign) and len(s1.targets) == 1 and isinstance(s1.targets[0], ast.Name) and \
+                    s1.targets[0].id in list_names and isinstance(s2, ast.Expr) and isinstance(s2.value, ast.Call) and \
+                    isinstance(s2.value.func, ast.Attribute) and s2.value.func.attr == 'extend' and \
+                    isinstance(s2.value.func.value, ast.Name) and s2.value.func.value.id == s1.targets[0].id and \
+                    len(s2.value.args) == 1 and not s2.value.keywords and _is_path(s2.value.args[0]) and \
+                    not (isinstance(s1.value, ast.List) and not s1.value.elts):
+                more = ast.Call(func=ast.Name(id='list', ctx=ast.Load()), args=[s2.value.args[0]], keywords=[])
+                s1.value = ast.BinOp(left=s1.value, op=ast.Add(), right=more)
+                del stmts[i + 1]
+                changed[0] = True
+                continue
+            i += 1
+        for s_ in stmts:
+            if isinstance(s_, (ast.FunctionDef, ast.AsyncFunctionDef, ast.ClassDef)):
+                continue
+            for fld in ('body', 'orelse', 'finalbody'):
+                sub = getattr(s_, fld, None)
+                if isinstance(sub, list):
+                    block(sub)
+            for h in getattr(s_, 'handlers', []):
+                block(h.body)
+    block(fn.body)
+    return changed[0]
 
 
 def _field_readback(fn):
